@@ -23,12 +23,17 @@ import (
 //   extNarrow  the unmodified round trip through the parser's checksum verification, one symbolic octet per case
 //   ipv4       ipv4.Header.Marshal -> ipv4.ParseHeader (Linux byte-order rules): equal header, options 0/4/8 bytes;
 //              ParseHeader / icmp.ParseIPv4Header on 20..24 arbitrary bytes never panic
+//   ipv4reuse  (shape I) Header.Parse into an arbitrary used Header (any previous fields, options 0..3 words with spare
+//              capacity) == ParseHeader into a fresh one, and re-marshals to the wire header; ipv4seq (shape B): one
+//              Header receives 3..4 marshalled headers with different option lengths in a row.
+//              Known finding C60-ipv4-parse-stale-options: an option-less header keeps the receiver's old Options.
 // Outside the claim: ipv4/ipv6 control-message marshal/parse (unsafe casts over syscall structs).
 //
 // Sensitivity (mut.sh, each caught by this check):
 //   icmp/message.go checksum   `s = s + s>>16`  ->  `s = s + s>>15`   (fold; caught by 6 checksum assertions)
 //   ipv4/header.go  Marshal    `binary.BigEndian.PutUint16(b[2:4], uint16(h.TotalLen))` (default case) -> LittleEndian
 //   icmp/mpls.go    marshal    `byte(ll.Label>>4&0xff)` -> `byte(ll.Label>>3&0xff)`
+//   ipv4/header.go  Parse      options buffer reuse without re-slicing to optlen (seed C60-B; ipv4reuse + ipv4seq)
 
 func init() {
 	vfRegister("VerifC60_echo", VerifC60_echo)
@@ -41,6 +46,8 @@ func init() {
 	vfRegister("VerifC60_parseExt", VerifC60_parseExt)
 	vfRegister("VerifC60_ipv4", VerifC60_ipv4)
 	vfRegister("VerifC60_ipv4parse", VerifC60_ipv4parse)
+	vfRegister("VerifC60_ipv4reuse", VerifC60_ipv4reuse)
+	vfRegister("VerifC60_ipv4seq", VerifC60_ipv4seq)
 }
 
 // c60sum is the RFC 1071 reference verifier: one's-complement sum of ALL 16-bit words of b (checksum field
@@ -692,6 +699,133 @@ func VerifC60_ipv4() {
 	g2, err := ParseIPv4Header(wb)
 	vfAssert(err == nil, "icmp.ParseIPv4Header ok")
 	vfAssert(g2.TotalLen == h.TotalLen && g2.ID == h.ID && g2.TTL == h.TTL && g2.Len == h.Len, "icmp.ParseIPv4Header agrees")
+	vfReach("end")
+}
+
+// Shape I: (*ipv4.Header).Parse "stores the result in h" — for an ARBITRARY receiver pre-state (a Header kept by a
+// receive loop: every scalar field symbolic, Options of any length 0..3 words with 0..2 words of spare capacity and
+// symbolic contents, as left behind by an earlier Parse or supplied by the caller as a scratch buffer) the state
+// after Parse(wire) is the state ParseHeader(wire) produces in a fresh Header, and marshalling it gives the wire
+// header back. On error the receiver is left untouched. Covers the reuse branch of the options buffer
+// (cap(h.Options) >= optlen) that ParseHeader never takes.
+func VerifC60_ipv4reuse() {
+	prevWords := vfLen("prevwords", 0, 3)
+	spareWords := vfLen("sparewords", 0, 2)
+	prev := make([]byte, 4*prevWords, 4*(prevWords+spareWords))
+	copy(prev, vfBytes("prevopts", 4*prevWords))
+	h := ipv4.Header{
+		Version:  int(vfU8("pversion")),
+		Len:      int(vfU8("plen")),
+		TOS:      int(vfU8("ptos")),
+		TotalLen: int(vfU16("ptotallen")),
+		ID:       int(vfU16("pid")),
+		Flags:    ipv4.HeaderFlags(vfU8("pflags")),
+		FragOff:  int(vfU16("pfragoff")),
+		TTL:      int(vfU8("pttl")),
+		Protocol: int(vfU8("pprotocol")),
+		Checksum: int(vfU16("pchecksum")),
+		Src:      net.IP(vfBytes("psrc", 4)),
+		Dst:      net.IP(vfBytes("pdst", 4)),
+	}
+	if prevWords+spareWords > 0 || vfBool("emptyNonNil") {
+		h.Options = prev
+	}
+	// the header on the wire: 20 fixed octets (IHL symbolic) + 0..3 words of further octets, possibly truncated
+	n := 20 + 4*vfLen("wirewords", 0, 3)
+	wire := vfBytes("wire", n)
+	hl := int(vfConcretize(uint64(wire[0]&0x0f))) << 2
+	err := h.Parse(wire)
+	if hl > n {
+		vfAssert(err != nil, "truncated header rejected")
+		vfAssert(len(h.Options) == 4*prevWords && c60bytesEq(h.Options, prev), "receiver options untouched on error")
+		vfReach("reuse: truncated")
+		vfReach("end")
+		return
+	}
+	vfAssert(err == nil, "parse into a used header ok")
+	f, ferr := ipv4.ParseHeader(wire)
+	vfAssert(ferr == nil && f != nil, "parse into a fresh header ok")
+	vfAssert(h.Version == f.Version && h.Len == f.Len && h.Len == hl, "version/len as in a fresh header")
+	vfAssert(h.TOS == f.TOS && h.TotalLen == f.TotalLen && h.ID == f.ID, "tos/totallen/id as in a fresh header")
+	vfAssert(h.Flags == f.Flags && h.FragOff == f.FragOff, "flags/fragoff as in a fresh header")
+	vfAssert(h.TTL == f.TTL && h.Protocol == f.Protocol && h.Checksum == f.Checksum, "ttl/protocol/checksum as in a fresh header")
+	vfAssert(c60bytesEq(h.Src, f.Src) && c60bytesEq(h.Dst, f.Dst), "addresses as in a fresh header")
+	optlen := 0
+	if hl > ipv4.HeaderLen {
+		optlen = hl - ipv4.HeaderLen
+	}
+	vfObserve("optlen", uint64(optlen))
+	vfObserve("gotoptlen", uint64(len(h.Options)))
+	if optlen > 0 {
+		vfAssert(len(h.Options) == optlen, "options length is the header's, whatever the receiver held before")
+		vfAssert(c60bytesEq(h.Options, wire[ipv4.HeaderLen:hl]), "options are the header's")
+		if 4*(prevWords+spareWords) >= optlen {
+			if 4*prevWords > optlen {
+				vfReach("reuse: options buffer shrunk")
+			} else if 4*prevWords < optlen {
+				vfReach("reuse: options buffer extended within capacity")
+			}
+		} else {
+			vfReach("reuse: options buffer grown")
+		}
+	} else {
+		// a header without options (IHL <= 5): the fresh Header has none
+		vfAssert(len(f.Options) == 0, "fresh header has no options")
+		vfAssertKF(len(h.Options) == 0, "no options left over from the receiver's previous contents",
+			"C60-ipv4-parse-stale-options", prevWords > 0)
+		vfReach("reuse: header without options")
+	}
+	// marshal what was parsed: the wire header again (Marshal always writes version 4 and derives IHL from the
+	// options, so this holds for well-formed headers: version 4, IHL >= 5)
+	if hl >= ipv4.HeaderLen {
+		wb, merr := h.Marshal()
+		vfAssert(merr == nil, "re-marshal ok")
+		vfAssert(len(wb) == hl, "re-marshalled length")
+		if wire[0]>>4 == ipv4.Version {
+			vfAssert(c60bytesEq(wb, wire[:hl]), "re-marshal of the parsed header gives the wire header")
+			vfReach("reuse: re-marshalled")
+		}
+	}
+	vfReach("end")
+}
+
+// Shape B companion of ipv4reuse: one Header value, starting from the zero Header, receives k marshalled headers in
+// a row (a receive loop), each with its own number of option words and symbolic ID/options; after every step the
+// Header equals the one that was marshalled and marshals to the same bytes.
+func VerifC60_ipv4seq() {
+	steps := 3
+	if vfTier() == 1 {
+		steps = 4
+	}
+	var h ipv4.Header
+	hadOptions := false
+	for i := 0; i < steps; i++ {
+		nopt := 4 * vfLen("optwords", 0, 3)
+		src := &ipv4.Header{
+			Version:  ipv4.Version,
+			Len:      ipv4.HeaderLen + nopt,
+			TotalLen: int(vfU16("totallen")),
+			ID:       int(vfU16("id")),
+			TTL:      int(vfU8("ttl")),
+			Src:      net.IP(vfBytes("src", 4)),
+			Dst:      net.IP(vfBytes("dst", 4)),
+			Options:  vfBytes("options", nopt),
+		}
+		wire, err := src.Marshal()
+		vfAssert(err == nil && len(wire) == src.Len, "marshal ok")
+		vfAssert(h.Parse(wire) == nil, "parse ok")
+		vfAssert(h.Len == src.Len && h.ID == src.ID && h.TotalLen == src.TotalLen && h.TTL == src.TTL, "scalar fields of this step")
+		vfAssert(c60bytesEq(h.Src.To4(), src.Src) && c60bytesEq(h.Dst.To4(), src.Dst), "addresses of this step")
+		if nopt > 0 {
+			vfAssert(c60bytesEq(h.Options, src.Options), "options of this step")
+			hadOptions = true
+		} else {
+			vfAssertKF(len(h.Options) == 0, "no options left over from an earlier step", "C60-ipv4-parse-stale-options", hadOptions)
+		}
+		wb, err := h.Marshal()
+		vfAssert(err == nil && c60bytesEq(wb, wire), "re-marshal gives this step's wire header")
+		vfObserveBytes("rewire", wb)
+	}
 	vfReach("end")
 }
 
